@@ -1579,13 +1579,24 @@ class ScenarioOutline(Scenario):
 
     def compute_status(self):
         skipped_count = 0
+        passed_count = 0
         for scenario in self._scenarios:    # -- AVOID: BUILD-SCENARIOS
             scenario_status = scenario.status
             this_status = OuterStatus.from_inner_status(scenario_status)
             if this_status.has_failed():
                 return this_status
+            elif this_status.is_untested():
+                if passed_count > 0:
+                    # -- TEST-RUN WAS ABORTED: Some passed, now untested -> FAILED.
+                    return Status.failed
+                return Status.untested
             elif scenario_status == Status.skipped:
                 skipped_count += 1
+            elif this_status.is_passed():
+                passed_count += 1
+        if not self._scenarios and self._expected_scenarios_count() > 0:
+            # -- NOT-BUILT: Scenarios were not built yet (and never run).
+            return Status.untested
         if skipped_count > 0 and skipped_count == len(self._scenarios):
             # -- ALL SKIPPED:
             return Status.skipped
